@@ -88,7 +88,8 @@ theorem cellOfBest_cases {α} [DecidableEq α] (ms : Nat → Nat → Bool) (cand
       cases xs <;> simp [cellOfBest] at h
   · intro h; subst h; simp [best, cellOfBest]
 
-/-- non-trivial instance: among (0 more specific than 1 and 2; 1, 2 unrelated) 0 dominates -/
+/-- non-trivial instance (see also `next_refers_to_most_specific_more_general` in this namespace,
+    stated after the bridge to the specification): among (0 more specific than 1 and 2; 1, 2 unrelated) 0 dominates -/
 example : best (fun a b => a == 0 && b != 0) [1, 0, 2] = [0] := by decide
 example : best (fun _ _ => false) [1, 2] = [1, 2] := by decide
 
